@@ -164,7 +164,11 @@ def check_wrappers(chk, prog, sim):
             callees.append(tgt)
         good = [c for c in callees if c["name"] == name and is_adt(c.get("impl_self") or {}, "ReferenceUnsafe")]
         chk.evaluated(1, nontrivial=(key, name))
-        if len(good) != 1 or len(callees) != 1:
+        others = [c for c in callees if c not in good]
+        # besides the delegated call only private helpers of Reference itself may appear (e.g. a private `wrap` that builds the tuple struct)
+        foreign = [c for c in others if not (c.get("local") and (prog.fns.get(c["did"]) or {}).get("exported", True) is False
+                                             and is_adt((prog.fns.get(c["did"]) or {}).get("impl_self") or {}, "Reference"))]
+        if len(good) != 1 or foreign:
             chk.violation("C17.W", "Reference::" + name, "Reference::%s must be a single call to ReferenceUnsafe::%s; calls: %s" % (name, name, [c["pretty"] for c in callees]), fn=fn["pretty"], file=loc(fn["span"]))
             ok = False
     if ok:
